@@ -437,7 +437,18 @@ class Evaluator:
                 if 0 <= j < nd:
                     env[nm] = self.ev(defaults[j])
                 else:
-                    raise Unsupported(f"missing argument {nm} in call of {fnode.name}", fnode)
+                    raise AbsRaise("TypeError", fnode)       # missing required argument
+        if len(args) > len(names) and a.vararg is None:
+            raise AbsRaise("TypeError", fnode)               # too many positional arguments
+        kwonly = [x.arg for x in a.kwonlyargs]
+        for k, v in (kwargs or {}).items():
+            if k in kwonly:
+                env[k] = v
+            elif k not in names and a.kwarg is None:
+                raise AbsRaise("TypeError", fnode)           # unexpected keyword argument
+        for x, d in zip(a.kwonlyargs, a.kw_defaults):
+            if x.arg not in env and d is not None:
+                env[x.arg] = self.ev(d)
         child = Evaluator(env, self.funcs, self.max_steps)
         child.sym_compare = self.sym_compare
         child.strict_index = self.strict_index
